@@ -323,7 +323,7 @@ def Node.operand : Node → R Node
 def readsP2 : List String := ["Int2bOpcode", "Literal2Opcode", "FowardJumpOpcode", "ConditionalJumpOpcode", "LoadLongListOpcode"]
 
 /-- classes whose `process` reads `self.param1` only -/
-def readsP1 : List String := ["Int1bOpcode", "LiteralOpcode", "SymbolOpcode", "PropertyOpcode", "VariableOpcode", "GlobalVariableOpcode", "PropertyNameOpcode", "ParameterNameOpcode", "LocalVariableOpcode", "TellPropertyOpcode", "AssignGlobalVariableOpcode", "LoadPropertyOpcode", "AssignPropertyOpcode", "AssignParameterOpcode", "AssignLocalVariableOpcode", "JumpOpcode", "CallLocalOpcode", "CallExternalOpcode", "CallObjectMethodOpcode", "CallExternalMethodOpcode", "PropertyAccesorOpcode", "AssignPropertyAccesorOpcode", "KeyPropertyAccesorOpcode", "CopySymbolOpcode", "DiscardSymbolsOpcode", "LoadListOpcode"]
+def readsP1 : List String := ["Int1bOpcode", "LiteralOpcode", "SymbolOpcode", "PropertyOpcode", "VariableOpcode", "GlobalVariableOpcode", "PropertyNameOpcode", "ParameterNameOpcode", "LocalVariableOpcode", "TellPropertyOpcode", "AssignGlobalVariableOpcode", "LoadPropertyOpcode", "AssignPropertyOpcode", "AssignValToPropertyOpcode", "AssignParameterOpcode", "AssignLocalVariableOpcode", "JumpOpcode", "CallLocalOpcode", "CallExternalOpcode", "CallObjectMethodOpcode", "CallExternalMethodOpcode", "PropertyAccesorOpcode", "AssignPropertyAccesorOpcode", "KeyPropertyAccesorOpcode", "CopySymbolOpcode", "DiscardSymbolsOpcode", "LoadListOpcode"]
 
 /-- `process` of the classes that read no operand register -/
 def process0 (ctx : Ctx) (info : Opcodes.OpInfo) (index : Int) (st : PState) : R PState :=
@@ -499,6 +499,15 @@ def process1 (ctx : Ctx) (info : Opcodes.OpInfo) (p1 : Nat) (index : Int) (st : 
       else match dictGet PropTables.knownPropertiesAssign n with
         | .ok owner => .propAcc index (.leaf .localVar (.s owner) index) n false     -- same object as LoadPropertyOpcode reads
         | .error _ => .leaf .propName (.s n) index
+    let (r, st) ← st.pop
+    pure (st.addStmt index (assignNode index left r))
+  | "AssignValToPropertyOpcode" => do
+    -- `set the P = v` (opcode 60): the movie / system property, also when the script declares a property of that name (F150)
+    let n ← nameAt ctx p1
+    let left : Node :=
+      match dictGet PropTables.knownPropertiesAssign n with
+      | .ok owner => .propAcc index (.leaf .localVar (.s owner) index) n false
+      | .error _ => .leaf .propName (.s n) index
     let (r, st) ← st.pop
     pure (st.addStmt index (assignNode index left r))
   | "AssignParameterOpcode" => do
